@@ -14,6 +14,7 @@ import TaskctlVerif.Model.Imports
 import TaskctlVerif.Model.GlobalCfg
 import TaskctlVerif.Model.Normalise
 import TaskctlVerif.Model.VarsHeap
+import TaskctlVerif.Model.Derived
 import TaskctlVerif.Model.Refs
 import TaskctlVerif.Model.Loader
 import TaskctlVerif.Model.Output
@@ -460,6 +461,35 @@ def hexStr (cs : List Char) : String :=
   let hd (n : Nat) : Char := if n < 10 then Char.ofNat (48 + n) else Char.ofNat (87 + n)
   String.ofList (cs.flatMap fun c => [hd (c.toNat / 16), hd (c.toNat % 16)])
 
+/-- `derived r=Who:L67,GreetG:L68656c6c6f2d;RWho t=- s=Who:L7331 q=GreetG,Who` : the runner's, the task's and the
+stage's variables (`name:seg;seg`, a segment is `L<hex of the literal>`, or `R<name>` / `I<name>` / `W<name>` for a reference written `{{ .name }}` / with `index` / with `with`) and the names the command
+prints. Answer: `FAIL` when the rendering loop fails (a visited variable refers to nothing), `nonflat` when a reference
+names a value that is itself a template (not modelled), else `name=<hex of what the command sees>` per queried name -/
+def derivedCase (fields : List String) : String :=
+  let parseSeg (x : String) : Derived.Seg :=
+    match x.toList with
+    | 'R' :: r => .ref (String.ofList r) none
+    | 'I' :: r => .ref (String.ofList r) (some "<no value>")
+    | 'W' :: r => .ref (String.ofList r) (some "")
+    | 'L' :: r => .lit (String.ofList ((hexBytes r).map Char.ofNat))
+    | _ => .lit ""
+  let parseEnv (x : String) : Layers.Env Derived.Tmpl :=
+    if x = "-" then [] else
+    (splitNonEmpty x ",").filterMap fun e =>
+      match e.splitOn ":" with
+      | [k, segs] => some (k, (splitNonEmpty segs ";").map parseSeg)
+      | [k] => some (k, [])
+      | _ => none
+  let m := Derived.execVars (parseEnv (kv fields "r")) (parseEnv (kv fields "t")) (parseEnv (kv fields "s"))
+  if !Derived.flatB m then "nonflat" else
+  match Derived.loop m (dedup (m.map (·.1))) with
+  | none => "FAIL"
+  | some m' =>
+    " ".intercalate ((splitNonEmpty (kv fields "q") ",").map fun k =>
+      match Layers.get m' k with
+      | some t => s!"{k}={hexStr (Derived.text t).toList}"
+      | none => s!"{k}=!")
+
 /-- `envfile 413d62,,433d64` : comma-separated hex of each line (ASCII) -/
 def envfileCase (fields : List String) : String :=
   let lines : List (List Char) := ((fields.getD 0 "").splitOn ",").map fun h => (hexBytes h.toList).map Char.ofNat
@@ -564,6 +594,7 @@ def handle (line0 : String) : String :=
   | "gsplit" :: rest => gsplitCase rest
   | "unify" :: rest => unifyCase rest
   | "varsops" :: rest => varsopsCase rest
+  | "derived" :: rest => derivedCase rest
   | "native" :: _ => nativeCase
   | "glob" :: rest => globCase rest
   | "select" :: rest => selectCase rest
